@@ -485,12 +485,17 @@ theorem step_minv (cfg : Config S) (hdt : 0 < cfg.dt) (P : NodeId → Proto S σ
         · exact hfin _ hs
         · exact hs
 
+theorem initWith_minv (cfg : Config S) (P : NodeId → Proto S σ) (pre : List (NodeId × Prog S σ)) :
+    MInv cfg (initWith cfg P pre) :=
+  initWith_induction (C := fun w => MInv cfg w) (init_minv cfg P)
+    (fun n p w h => h.mext (mext_runProg cfg n p w)) pre
+
 theorem reachable_minv {cfg : Config S} (hdt : 0 < cfg.dt) {P : NodeId → Proto S σ} {w : World S σ}
     (h : Reachable cfg P w) : MInv cfg w := by
-  obtain ⟨n, rfl⟩ := h
+  obtain ⟨pre, n, rfl⟩ := h
   have hdt' : 0 ≤ cfg.dt := by omega
   suffices ∀ n (w : World S σ), WInv w → MInv cfg w → WInv (steps cfg P n w) ∧ MInv cfg (steps cfg P n w) from
-    (this n _ (init_inv cfg P hdt') (init_minv cfg P)).2
+    (this n _ (initWith_inv cfg P hdt' pre) (initWith_minv cfg P pre)).2
   intro n
   induction n with
   | zero => intro w hw hp; exact ⟨hw, hp⟩
